@@ -1,4 +1,4 @@
-import MgpuProofs.C16Live
+import MgpuProofs.C16Epoch
 /-! # C16 — property theorems (address translation forwards every access faithfully, exactly once)
 
 All statements are about `run c ops`: the tick-exact model of the address translator started from
@@ -397,29 +397,42 @@ theorem reply_while_full_wakes (c : Cfg) (e : Env) (w : CW) (hwid : 0 < c.width)
   · rw [hs']; exact ⟨t, ht, hdone⟩
   · rw [hs']; exact hfl
 
-/-- **Flush in the closed world.** `staleT` / `staleM` are the lookups sent / the requests forwarded
-before the last flush (snapshots taken by the flushing tick). In every reachable world — in
-particular after flush + restart, with replies to discarded lookups and responses to discarded
-requests still on their way — no pending transaction and no in-flight record carries a stale id,
-and a late reply (late memory response) that reaches the head of its port is dropped: the tick's
-stage returns exactly the old state minus that message (plus its trace event); transactions,
-in-flight records, logs, all other buffers and the id counters are untouched. Together with
-`at_every_access_answered` / `at_end_to_end`, which hold in these worlds too, later traffic is
-answered exactly as without the late messages. -/
+/-- **Flush in the closed world.** `askedAt` / `forwarded` tag every lookup sent and every request
+forwarded with the flush epoch in which that happened. In every reachable world — in particular
+after flush + restart, with replies to discarded lookups and responses to discarded requests still
+on their way, arriving in any order and after any delay — (1, 2) no pending transaction and no
+in-flight record carries the id of a lookup / request of an *earlier* epoch, so a late message can
+never be taken for a current one; (3, 4) a late reply (late memory response) that reaches the head
+of its port is dropped: the stage returns exactly the old state minus that message (plus its trace
+event) — transactions, in-flight records, logs, all other buffers and the id counters are
+untouched; (5) every lookup ever sent has such a tag. Together with `at_every_access_answered` /
+`at_end_to_end`, which hold in these worlds too, later traffic is answered exactly as specified,
+late messages or not. -/
 theorem at_flush_world (c : Cfg) (e : Env) (w : CW) (hr : Reach c e w) :
-    (∀ t ∈ w.s.txs, ∀ q ∈ w.staleT, q.tid ≠ t.treq.tid) ∧
-    (∀ f ∈ w.s.infl, ∀ l ∈ w.staleM, l.breq.bid ≠ f.breq.bid) ∧
-    (∀ q ∈ w.staleT, ∀ r rest, w.s.trIn = r :: rest → r.rspTo = q.tid →
+    (∀ t ∈ w.s.txs, ∀ p ∈ w.s.askedAt, p.2 < w.s.epoch → p.1 ≠ t.treq.tid) ∧
+    (∀ f ∈ w.s.infl, ∀ l ∈ w.s.forwarded, l.epoch < w.s.epoch → l.breq.bid ≠ f.breq.bid) ∧
+    (∀ p ∈ w.s.askedAt, p.2 < w.s.epoch → ∀ r rest, w.s.trIn = r :: rest → r.rspTo = p.1 →
       popFirst isDrainable w.s.txs = none →
       parseTranslation c w.s = ({ w.s with trIn := rest, ev := s!"X{r.rspTo}" :: w.s.ev }, true)) ∧
-    (∀ l ∈ w.staleM, ∀ r rest, w.s.botIn = r :: rest → r.rspTo = l.breq.bid →
-      respond c w.s = ({ w.s with botIn := rest, ev := s!"Y{r.rspTo}" :: w.s.ev }, true)) := by
+    (∀ l ∈ w.s.forwarded, l.epoch < w.s.epoch → ∀ r rest, w.s.botIn = r :: rest → r.rspTo = l.breq.bid →
+      respond c w.s = ({ w.s with botIn := rest, ev := s!"Y{r.rspTo}" :: w.s.ev }, true)) ∧
+    (∀ q ∈ w.s.asked, ∃ ep, (q.tid, ep) ∈ w.s.askedAt ∧ ep ≤ w.s.epoch) := by
   have hw := reach_winv hr
-  refine ⟨hw.t.fT, hw.t.fM, ?_, ?_⟩
-  · intro q hq r rest htr he hp
-    exact parse_drops c w.s r rest htr hp (fun t ht h => hw.t.fT t ht q hq (he ▸ h.symm))
-  · intro l hl r rest hb he
-    exact respond_drops c w.s r rest hb (fun f hf h => hw.t.fM f hf l hl (he ▸ h.symm))
+  have he := reach_einv hr
+  have h1 : ∀ t ∈ w.s.txs, ∀ p ∈ w.s.askedAt, p.2 < w.s.epoch → p.1 ≠ t.treq.tid := by
+    intro t ht p hp hlt
+    obtain ⟨q, hq, hqe⟩ := he.as_ p hp hlt
+    rw [← hqe]; exact hw.t.fT t ht q hq
+  have h2 : ∀ f ∈ w.s.infl, ∀ l ∈ w.s.forwarded, l.epoch < w.s.epoch → l.breq.bid ≠ f.breq.bid :=
+    fun f hf l hl hlt => hw.t.fM f hf l (he.fs l hl hlt)
+  refine ⟨h1, h2, ?_, ?_, ?_⟩
+  · intro p hp hlt r rest htr hre hpo
+    exact parse_drops c w.s r rest htr hpo (fun t ht h => h1 t ht p hp hlt (hre ▸ h.symm))
+  · intro l hl hlt r rest hb hre
+    exact respond_drops c w.s r rest hb (fun f hf h => h2 f hf l hl hlt (hre ▸ h.symm))
+  · intro q hq
+    obtain ⟨ep, hep⟩ := he.aa q hq
+    exact ⟨ep, hep, he.ae _ hep⟩
 
 /-- the flushing tick takes the snapshots: afterwards everything sent so far is stale and nothing is held -/
 theorem at_flush_world_step (c : Cfg) (e : Env) (w : CW) (ha : w.awake = true)
@@ -444,6 +457,7 @@ def demoH2 : List HOp :=
   demoH1 ++ [.drainBot, .tick, .ansM 0, .tick, .drainTop, .drainBot, .flush, .tick, .drainCtl,
     .restart, .tick, .drainCtl, .access 1 0x2010 ⟨false, 4, [], []⟩, .tick, .ansM 0]
 
+/-- every world of the demo runs below is reachable, so the closed-world theorems apply to them -/
 theorem demo_reach (os : List HOp) : Reach ⟨1, 12⟩ demoEnv (hrun ⟨1, 12⟩ demoEnv {} os) :=
   reach_hrun Reach.init os
 
@@ -463,6 +477,8 @@ example :
     let w := hrun ⟨1, 12⟩ demoEnv {} demoH2
     w.s.epoch = 1 ∧ w.s.flushing = false ∧ w.staleM.map (·.breq.bid) = [1, 0] ∧
     w.s.botIn.map (·.rspTo) = [1] ∧ w.s.txs.map (·.treq.tid) = [2] ∧ w.staleT.map (·.tid) = [1, 0] ∧
+    w.s.askedAt = [(2, 1), (1, 0), (0, 0)] ∧
+    w.s.forwarded.map (fun l => (l.breq.bid, l.epoch)) = [(1, 0), (0, 0)] ∧
     w.s.received.map (fun p => (p.1.id, p.2)) = [(2, 1), (1, 0), (0, 0)] := by
   decide
 
